@@ -9,9 +9,9 @@ Local Open Scope string_scope.
 
 Definition modelled_sites : list map_range := [
   MR "cmd/atlas/internal/cmdapi/cmdapi.go" "resetFromEnv" 1 "resetFromEnv_perm" Sens 0 0;
-  MR "schemahcl/context.go" "State.evalReferences" 3 "evalReferences_nodes_perm_partial" Sens 0 0;
+  MR "schemahcl/context.go" "State.evalReferences" 3 "EvalRefs.evalReferences_loop_perm" Sens 0 0;
   MR "schemahcl/context.go" "blockVars" 1 "blockVars_perm" Sens 0 0;
-  MR "schemahcl/context.go" "bodyVars" 1 "bodyVars_perm (consumer: evalReferences)" Sens 1 0;
+  MR "schemahcl/context.go" "bodyVars" 1 "bodyVars_perm; consumer: EvalRefs.value_det" Sens 1 0;
   MR "schemahcl/context.go" "typeRefs" 1 "typeRefs_exists_perm" Sens 1 0;
   MR "schemahcl/extension.go" "registry.implementers" 1 "implementers_children_perm" Sens 1 0;
   MR "schemahcl/schemahcl.go" "State.EvalOptions" 1 "EvalOptions_files_perm (after fix C20-hcl-multifile-locals)" SortedAfter 1 1;
